@@ -56,6 +56,7 @@ type op struct {
 	Int   int64  `json:"int,omitempty"` // fmt
 	F     *epf   `json:"f,omitempty"`   // conv
 	Mgr   *mcase `json:"mgr,omitempty"` // mgr (stream mgr, see mgr.go)
+	Conc  *ccase `json:"conc,omitempty"` // conc (stream conc, see conc.go)
 }
 
 func hx(s string) string { return common.Hex([]byte(s)) }
@@ -141,7 +142,7 @@ func (o op) line() string {
 		f := o.F
 		return fmt.Sprintf("t2e %s %d %d %d %d %d %d %d %d %s", hx(f.Host), f.Port, f.Timeout, f.Istcp, f.Grid, f.Qos,
 			f.Weight, f.WeightType, f.AuthType, hx(f.SetId))
-	case "mgr":
+	case "mgr", "conc":
 		return "variant"
 	case "conv2":
 		f := o.F
@@ -970,7 +971,7 @@ func main() {
 		o.Model = strings.TrimSuffix(o.Model, "tm_wire") + "tm_endpoint"
 	}
 	res := common.NewResult("C18", o)
-	res.Streams = []string{"endpoint", "mgr"}
+	res.Streams = []string{"endpoint", "mgr", "conc"}
 	defer mgrCleanup()
 	rng := o.Rand()
 	m, err := common.StartModel(o.Model, "endpoint")
@@ -1011,6 +1012,9 @@ func main() {
 		if c.Kind == "mgr" && c.Mgr == nil {
 			fatal(fmt.Errorf("replay: mgr case without script"))
 		}
+		if c.Kind == "conc" && c.Conc == nil {
+			fatal(fmt.Errorf("replay: conc case without strings"))
+		}
 		ops = []op{{Kind: "variant"}, c}
 	} else {
 		ops = genOps(o, rng)
@@ -1031,10 +1035,43 @@ func main() {
 			fatal(err)
 		}
 		for k := i; k < j; k++ {
-			if ops[k].Kind == "mgr" {
+			if ops[k].Kind == "mgr" || ops[k].Kind == "conc" {
 				continue
 			}
 			check(ops[k], ans[k-i], res, o.Replay != "" && ops[k].Kind != "variant")
+		}
+	}
+	// stream conc: Parse and the conversions under concurrent use (before the manager stream, whose
+	// background goroutines would only add noise)
+	var ccases []*ccase
+	if o.Replay != "" {
+		for _, c := range ops {
+			if c.Kind == "conc" {
+				cc := *c.Conc
+				if cc.Rounds < 10 {
+					cc.Rounds = 10 // a replay repeats the concurrent phase until it shows the difference
+				}
+				ccases = append(ccases, &cc)
+			}
+		}
+	} else {
+		nc := 3
+		if o.Thorough() {
+			nc = 8
+		}
+		for i := 0; i < nc; i++ {
+			cc := genConcCase(rng, o.Thorough())
+			if i == 0 {
+				cc.G = 16
+			} else if i == 1 {
+				cc.G = 4
+			}
+			ccases = append(ccases, cc)
+		}
+	}
+	for _, cc := range ccases {
+		if err := checkConc(cc, m, res, o.Replay != ""); err != nil {
+			fatal(fmt.Errorf("conc stream: %v", err))
 		}
 	}
 	// stream mgr: the endpoint manager's key sites (network, a few cases)
@@ -1066,7 +1103,8 @@ func main() {
 		"incl. int32/int64 boundaries; all orders of 5 (thorough: 9) options) rendered and parsed; malformed strings (all strings <= 3 (thorough 5) over " +
 		"{t,c,p,' ',-,h,1}, all blank strings, single bytes, mutated descriptions, random bytes, non-ASCII blanks, address-list parts); " +
 		"EndpointF/Endpoint values for the conversions; number strings / strings for the re-implemented ParseInt, Fields, %d. " +
-		"non-trivial = distinct input with at least one option (desc) or at least 3 bytes (parse). Stream mgr: registry-mode endpoint managers with " +
+		"non-trivial = distinct input with at least one option (desc) or at least 3 bytes (parse). Stream conc: 3 (thorough 8) phases of G = 4..16 goroutines " +
+		"each parsing + converting its own sequence of ~60 different strings 2500 (thorough 20000) times, every result compared with the sequential one. Stream mgr: registry-mode endpoint managers with " +
 		"tcp/udp/ssl endpoints driven through warm, block, probe rounds and active/inactive/drop refreshes (1 fixed + 4 (thorough 40) random scripts)"
 	os.Stderr = realStderr
 	if err := res.Write(o.Out); err != nil {
